@@ -10,15 +10,25 @@
        one-armed `if`, global variable reference, global `define` / `set!`, application of an
        expression that evaluates to a builtin procedure (builtins abstract: [builtin_ok];
        proved for the real builtin `not`) — C01_fragment_correct below;
+     * the same for the fragment EXTENDED with local variables: lambda expressions applied in
+       place, ((lambda (x ...) body) e ...) = what `let` expands to, parameters read from the
+       activation environment, calls in tail (TCALL) and non-tail (CALL) position, with the
+       frame conditions (Proofs/CompileCorrect2.v) — C01_fragment2_correct, C01_eval_fragment2;
+     * the final conversion of the value at HALT (Heap::get_as_cell, whose fuel is an artefact
+       of the model): monotone in the fuel, correct whenever the fuel does not run out, and a
+       counterexample to "heap size + 1 suffices" (Proofs/CellFuelProofs.v);
    together with the scoping theorems of C02, the frame theorems of C04, the
    continuation theorems of C05 and the run-loop theorems of C07/C13.
    OPEN: the semantic compile-correctness theorem for the whole language
-   (C01_compile_correct_stmt): lambda/closures, lexical variables, quasiquote,
-   define-syntax and the derived forms of the prelude are outside the proved fragment. The
+   (C01_compile_correct_stmt): closures that capture variables or escape, `set!` on a local,
+   named procedures ((define (f x) ...)), internal definitions, variadic lambdas, quasiquote,
+   define-syntax and the derived forms of the prelude are outside the proved fragments. The
    reference semantics used as the spec oracle by the check is lib/scheme_ref.py.  *)
 From Coq Require Import String.
 From MW Require Import Model.Base Model.Datum Model.VmTypes Model.Heap Model.VmBase Model.Compile Model.Vm
-  Model.Builtins Model.WireVm Proofs.CompileProofs Proofs.RunProofs Proofs.CompileCorrect.
+  Model.Builtins Model.WireVm Proofs.CompileProofs Proofs.RunProofs Proofs.CompileCorrect
+  Proofs.QuoteHeapProofs Proofs.TailProofs Proofs.FrameSteps Proofs.CellFuelProofs Proofs.CompileCorrect2
+  Proofs.FreeSymProofs.
 Open Scope N_scope.
 
 (* operands strictly left to right, each compiled as a non-tail expression and
@@ -128,12 +138,86 @@ Print Assumptions C01_eval_fragment.
 (* ... and the HALT exit converts %acc to the reference value (for a builtin: its
    #<procedure> datum) and wipes the stack, provided the fuel of the model's get_as_cell
    ([cell_fuel] = heap size + 1) covers the depth k of the value.  That the heap size
-   always covers it (values are acyclic) is NOT proved. *)
+   always covers it is FALSE (C01_cell_fuel_insufficient below); the usable forms of this
+   statement are C01_halt_result_done_nofuel and C01_halt_result_done_cost. *)
 Theorem C01_halt_result_done : forall m r, vrep (acc m) r (hp m) (st m) ->
   exists k, (k <= cell_fuel m)%nat ->
     halt_result m = ROk (Done (rcell r)) (with_stack m tempty (sp m)).
 Proof. exact halt_result_done. Qed.
 Print Assumptions C01_halt_result_done.
+
+(* ---------------------------------------------------------------------------------
+   R1: the fuel of the model's get_as_cell.  The Rust Heap::get_as_cell has no bound (it does
+   not terminate on cyclic data); the model passes a fuel that bounds the DEPTH of the
+   traversal.  A result other than NoFuel is the result for every larger fuel. *)
+Theorem C01_gac_fuel_monotone : forall bname h s f g v, (f <= g)%nat ->
+  get_as_cell bname h s f v <> NoFuel -> get_as_cell bname h s g v = get_as_cell bname h s f v.
+Proof. exact gac_mono_le. Qed.
+Print Assumptions C01_gac_fuel_monotone.
+
+(* the honest premise: unless the model's fuel runs out, HALT yields the reference value *)
+Theorem C01_halt_result_done_nofuel : forall m r, vrep (acc m) r (hp m) (st m) ->
+  halt_result m <> RNoFuel ->
+  halt_result m = ROk (Done (rcell r)) (with_stack m tempty (sp m)).
+Proof. exact halt_result_done_nofuel. Qed.
+Print Assumptions C01_halt_result_done_nofuel.
+
+(* a sufficient structural bound: on a heap without pointer chains the fuel [rcost r] =
+   1 + dcost (car and vector nesting counted twice, cdr nesting once) is enough *)
+Theorem C01_gac_cost : forall bname h s, no_ptr_cells h -> forall f v c,
+  get_as_cell bname h s f v = Ok c ->
+  get_as_cell bname h s (S (dcost c)) v = Ok c /\
+  ((forall q, v <> VPtr q) -> get_as_cell bname h s (dcost c) v = Ok c).
+Proof. exact gac_cost. Qed.
+Print Assumptions C01_gac_cost.
+
+Theorem C01_halt_result_done_cost : forall m r, vrep (acc m) r (hp m) (st m) ->
+  no_ptr_cells (hp m) -> (rcost r <= cell_fuel m)%nat ->
+  halt_result m = ROk (Done (rcell r)) (with_stack m tempty (sp m)).
+Proof. exact halt_result_done_cost. Qed.
+Print Assumptions C01_halt_result_done_cost.
+
+(* C01_eval_fragment with `Done (rcell r)` as its conclusion, under either premise *)
+Theorem C01_eval_fragment_done :
+  forall (ob : N -> M vcell) (bsem : N -> list rval -> option rval),
+  (forall b, builtin_ok ob bsem b) ->
+  forall e rho r rho' s,
+  wf_expr e -> ref_eval bsem rho e r rho' -> minv s -> genv_rel rho s ->
+  transform_expr TRANSFORM_FUEL s (cell_of e) = Ok (cell_of e) ->
+  exists n m,
+    vrep (acc m) r (hp m) (st m) /\ genv_rel rho' m /\ minv m /\ cext s m /\
+    sp m = sp s /\ bp m = bp s /\ ep m = ep s /\ out_log m = out_log s /\
+    (forall fuel, (n <= fuel)%nat -> eval ob fuel (cell_of e) s = halt_result m) /\
+    (halt_result m <> RNoFuel \/ (no_ptr_cells (hp m) /\ (rcost r <= cell_fuel m)%nat) ->
+     forall fuel, (n <= fuel)%nat ->
+       eval ob fuel (cell_of e) s = ROk (Done (rcell r)) (with_stack m tempty (sp m))).
+Proof. exact eval_fragment_done. Qed.
+Print Assumptions C01_eval_fragment_done.
+
+(* heap size + 1 is NOT a sufficient fuel, even for tree-shaped acyclic data: the constant
+   #(#(#(#(#(#(#(#(1)))))))) satisfies every hypothesis of C01_eval_fragment on a machine with
+   a 2-cell chunk; at HALT the heap has 10 cells (fuel 11), the value needs 18, the model
+   answers NoFuel (where the Rust prints the vector), and 18 units convert it *)
+Example C01_cell_fuel_insufficient :
+  wf_expr nv_e /\ ref_eval (fun _ _ => None) rho_empty nv_e (RDatum (nest_vec 8)) rho_empty /\
+  minv (vm_empty 2) /\
+  transform_expr TRANSFORM_FUEL (vm_empty 2) (cell_of nv_e) = Ok (cell_of nv_e) /\
+  rcost (RDatum (nest_vec 8)) = 18%nat /\
+  (match prepare_eval (cell_of nv_e) (vm_empty 2) with
+   | ROk _ s0 =>
+      match steps other_builtin 6 s0 with
+      | Some m6 =>
+          match run_one other_builtin m6 with
+          | ROk true m => cell_fuel m = 11%nat /\ halt_result m = RNoFuel /\
+                          get_as_cell builtin_name (hp m) (st m) 18 (acc m) = Ok (nest_vec 8)
+          | _ => False
+          end
+      | None => False
+      end
+   | _ => False
+   end) /\
+  eval other_builtin 1000 (cell_of nv_e) (vm_empty 2) = RNoFuel.
+Proof. exact fuel_insufficient_example. Qed.
 
 (* n instructions that neither halt nor fail are n iterations of the run loop *)
 Theorem C01_steps_run_loop : forall ob n m m' f cyc, steps ob n m = Some m' ->
@@ -172,7 +256,141 @@ Example C01_fragment_example_app : forall rho, rho (S_ "not") = Some (RBuiltin B
   wf_expr ex_app /\ ref_eval bsem_not rho ex_app (RDatum (CBool false)) rho.
 Proof. exact ex_app_ref. Qed.
 
-(* The full statement, kept visible.  OPEN (proved for the fragment above only). *)
+(* ---------------------------------------------------------------------------------
+   The fragment extended with LOCAL VARIABLES of lambda expressions applied in place:
+     e ::= ... | ((lambda (x1 ... xn) body) e1 ... en)      (what `let` expands to)
+   body again in the fragment; a variable is a parameter of the innermost enclosing lambda
+   ([pindex]) or a global; define / set! on globals only; nothing captured ([nocapture]: the
+   compiler's free-symbol analysis of the lambda finds no parameter of the enclosing lambda;
+   implied by the syntactic [swf_expr2], C01_wf2_syntactic below).
+   As marwood compiles it: a parameter is a slot of the activation ENVIRONMENT (every formal
+   is an (sym, Argument i) entry of the environment map), read by MOV (lexical slot i); the
+   lambda expression is MOV_IMMEDIATE + CLOSURE; the call is CALL, or TCALL in tail position.
+   [hdr l ps s]: the lambda under construction has the parameters ps (interned in s) and an
+   environment map consisting of them.  [lrel lv m]: the environment %ep points to holds the
+   values lv.  The code either ends at its last instruction with sp / bp / ep / output log /
+   the stack up to sp / the existing environments unchanged ([ok_n], [frame2]), or — only
+   for code compiled in tail position inside a frame [tframe] — by a tail call whose callee
+   returns from that frame ([ok_t]: sp = frame base, ep / ip / bp = the saved ones, the stack
+   up to the base unchanged). *)
+Theorem C01_fragment2_correct :
+  forall (ob : N -> M vcell) (bsem : N -> list rval -> option rval),
+  (forall b, builtin_ok ob bsem b) -> (forall b, builtin_envs ob bsem b) ->
+  forall e ps, wf_expr2 e ps ->
+  forall f l tail s, (cell_size (cell_of2 e) < f)%nat -> hdr l ps s -> minv s ->
+  exists l' s' code, compile_expression f l tail (cell_of2 e) s = ROk l' s' /\
+    fwd l' = fwd l ++ code /\ same_hdr l l' /\ minv s' /\ cext s s' /\ same_regs s s' /\
+    forall lv rho r rho', ref_eval2 bsem ps lv rho e r rho' ->
+    forall m lp bc,
+      cext s' m -> minv m -> code_in m lp bc -> seg bc (len (fwd l)) code -> ip m = (lp, len (fwd l)) ->
+      genv_rel rho m -> lrel lv m -> (tail = true -> tframe m) ->
+      ok_n ob m lp (len (fwd l) + len code) r rho' \/ (tail = true /\ ok_t ob m r rho').
+Proof. exact compile_correct2. Qed.
+Print Assumptions C01_fragment2_correct.
+
+(* [wf_expr2] states "nothing is captured" through the compiler's analysis [free_symbols]; it
+   follows from the purely syntactic [swf_expr2]: same conditions, with [nocapture] replaced by
+   "every variable (or set! target) mentioned anywhere in the body of a lambda is one of ITS
+   parameters or is not a parameter of the enclosing lambda".  Behind it: the analysis [ffs]
+   succeeds on the fragment and reports only variables that occur in the expression and are
+   not bound by the environment it is given (Proofs/FreeSymProofs.v). *)
+Theorem C01_wf2_syntactic : forall e ps, swf_expr2 e ps -> wf_expr2 e ps.
+Proof. exact swf_wf. Qed.
+Print Assumptions C01_wf2_syntactic.
+Theorem C01_free_symbols_sound : forall e ps, swf_expr2 e ps ->
+  forall f env fs0, (cell_size (cell_of2 e) < f)%nat ->
+  exists fs1, ffs f (cell_of2 e) env (map CSym fs0) = Ok (map CSym (fs0 ++ fs1)) /\
+    forall x, In x fs1 -> In x (allvars e) /\ cell_in_syms (CSym x) env = false.
+Proof. exact ffs_spec_swf. Qed.
+Print Assumptions C01_free_symbols_sound.
+Example C01_fragment2_examples_syntactic : swf_expr2 ex2_e [] /\ swf_expr2 ex3_e [].
+Proof. exact (conj ex2_swf ex3_swf). Qed.
+
+(* the two outcomes, spelled out *)
+Theorem C01_ok_n_unfold : forall ob m lp q r rho', ok_n ob m lp q r rho' <->
+  exists n m', steps ob n m = Some m' /\ frame2 m m' /\ minv m' /\ ip m' = (lp, q) /\
+    vrep (acc m') r (hp m') (st m') /\ genv_rel rho' m'.
+Proof. intros; reflexivity. Qed.
+Theorem C01_ok_t_unfold : forall ob m r rho', ok_t ob m r rho' <->
+  exists n m' k e i b, steps ob n m = Some m' /\ frame_at m k e i b /\ rext m m' /\ minv m' /\
+    vrep (acc m') r (hp m') (st m') /\ genv_rel rho' m' /\
+    sp m' = bp m - k /\ ep m' = e /\ ip m' = i /\ bp m' = b /\ out_log m' = out_log m /\
+    (forall j, j <= bp m - k -> sget m' j = sget m j).
+Proof. intros; reflexivity. Qed.
+
+(* Vm::eval on an expression of the extended fragment *)
+Theorem C01_eval_fragment2 :
+  forall (ob : N -> M vcell) (bsem : N -> list rval -> option rval),
+  (forall b, builtin_ok ob bsem b) -> (forall b, builtin_envs ob bsem b) ->
+  forall e rho r rho' s,
+  wf_expr2 e [] -> ref_eval2 bsem [] [] rho e r rho' -> minv s -> genv_rel rho s ->
+  transform_expr TRANSFORM_FUEL s (cell_of2 e) = Ok (cell_of2 e) ->
+  exists n m, (forall fuel, (n <= fuel)%nat -> eval ob fuel (cell_of2 e) s = halt_result m) /\
+    vrep (acc m) r (hp m) (st m) /\ genv_rel rho' m /\ minv m /\ cext s m /\
+    sp m = sp s /\ bp m = bp s /\ ep m = ep s /\ out_log m = out_log s.
+Proof. exact eval_fragment2. Qed.
+Print Assumptions C01_eval_fragment2.
+
+Theorem C01_eval_fragment2_done :
+  forall (ob : N -> M vcell) (bsem : N -> list rval -> option rval),
+  (forall b, builtin_ok ob bsem b) -> (forall b, builtin_envs ob bsem b) ->
+  forall e rho r rho' s,
+  wf_expr2 e [] -> ref_eval2 bsem [] [] rho e r rho' -> minv s -> genv_rel rho s ->
+  transform_expr TRANSFORM_FUEL s (cell_of2 e) = Ok (cell_of2 e) ->
+  exists n m,
+    vrep (acc m) r (hp m) (st m) /\ genv_rel rho' m /\ minv m /\ cext s m /\
+    sp m = sp s /\ bp m = bp s /\ ep m = ep s /\ out_log m = out_log s /\
+    (forall fuel, (n <= fuel)%nat -> eval ob fuel (cell_of2 e) s = halt_result m) /\
+    (halt_result m <> RNoFuel \/ (no_ptr_cells (hp m) /\ (rcost r <= cell_fuel m)%nat) ->
+     forall fuel, (n <= fuel)%nat ->
+       eval ob fuel (cell_of2 e) s = ROk (Done (rcell r)) (with_stack m tempty (sp m))).
+Proof. exact eval_fragment2_done. Qed.
+Print Assumptions C01_eval_fragment2_done.
+
+(* the second hypothesis on builtins (a builtin with a specified result leaves the lexical
+   environments alone) holds for the real `not`, and for any table with the empty specification *)
+Theorem C01_builtin_not_envs : forall b, builtin_envs other_builtin bsem_not b.
+Proof. exact builtin_envs_not. Qed.
+Print Assumptions C01_builtin_not_envs.
+Theorem C01_builtin_envs_satisfiable : forall ob b, builtin_envs ob (fun _ _ => None) b.
+Proof. exact builtin_envs_unspecified. Qed.
+Print Assumptions C01_builtin_envs_satisfiable.
+
+(* non-vacuity: ((lambda (x y) (if x y 'no)) #t '(1 2)) satisfies the hypotheses on the empty
+   machine and has the reference value (1 2) ... *)
+Example C01_fragment2_example :
+  wf_expr2 ex2_e [] /\ minv (vm_empty 8192) /\ genv_rel rho_empty (vm_empty 8192) /\
+  ref_eval2 bsem_not [] [] rho_empty ex2_e (RDatum ex2_list) rho_empty.
+Proof. exact ex2_hypotheses. Qed.
+(* ... and the model evaluates it to (1 2) with the registers of the start *)
+Example C01_fragment2_example_run :
+  transform_expr TRANSFORM_FUEL (vm_empty 8192) (cell_of2 ex2_e) = Ok (cell_of2 ex2_e) /\
+  match eval other_builtin 100 (cell_of2 ex2_e) (vm_empty 8192) with
+  | ROk (Done c) s' => c = ex2_list /\ sp s' = 0 /\ bp s' = 0 /\ ep s' = USIZE_MAX
+  | _ => False
+  end.
+Proof. vm_compute. repeat split. Qed.
+(* nested, both applications in tail position (two TCALLs that rebuild the frame), an operand
+   that is a parameter: ((lambda (x) ((lambda (y z) (if y z 'no)) x '(1 2))) #t) *)
+Example C01_fragment2_example_tail :
+  wf_expr2 ex3_e [] /\ ref_eval2 bsem_not [] [] rho_empty ex3_e (RDatum ex2_list) rho_empty.
+Proof. exact ex3_hypotheses. Qed.
+Example C01_fragment2_example_tail_run :
+  transform_expr TRANSFORM_FUEL (vm_empty 8192) (cell_of2 ex3_e) = Ok (cell_of2 ex3_e) /\
+  match eval other_builtin 100 (cell_of2 ex3_e) (vm_empty 8192) with
+  | ROk (Done c) s' => c = ex2_list /\ sp s' = 0 /\ bp s' = 0 /\ ep s' = USIZE_MAX
+  | _ => False
+  end.
+Proof. vm_compute. repeat split. Qed.
+
+(* The full statement, kept visible.  OPEN.  Proved: the fragment of C01_fragment_correct
+   (constants, quote, if, global variables, global define / set!, builtin application) and its
+   extension C01_fragment2_correct (lambda expressions applied in place with local variables,
+   CALL and TCALL), both up to Vm::eval (C01_eval_fragment, C01_eval_fragment2 and their
+   _done forms).  Not covered: closures capturing variables or escaping as values, `set!` on
+   locals, (define (f x) ...) and calls by name, internal definitions, variadic lambdas,
+   quasiquote, define-syntax, the derived forms of the prelude, builtins with effects other
+   than allocation, and the defect classes below. *)
 Definition C01_compile_correct_stmt : Prop :=
   forall (reference : list text -> list N) (forms : list text),
     (* for every session of the generator grammar outside the recorded defect classes *)
